@@ -117,6 +117,7 @@ def strace_writes(libdir, sc, tmpd):
 def run(ctx):
     libdir = ctx.lib()
     c06.layout_obligation(ctx)
+    ctx.regen("translate_descriptors.py")
     proved = ctx.prove("C07", extra_targets=["C06/Run.vo"])
     rebound = L.load(libdir)
     ft = L.field_types(rebound)
@@ -151,6 +152,9 @@ def _run(ctx, libdir, rebound, ft, E, rng, tmpd):
     open_meta = []      # (scenario, append index a, cut k, n_complete)
     resume_jobs = []; resume_meta = []
     ref_hash = {}
+    ref_relaxed = {}
+    uninit = []
+    first_files = {}
     trace_ok = True; trace_detail = []
     ntraces = 0
     for si, sc in enumerate(scen):
@@ -167,7 +171,8 @@ def _run(ctx, libdir, rebound, ft, E, rng, tmpd):
         if not isinstance(rr, list) or "snap_hashes" not in rr[0]:
             ctx.violation("open-intact", {"scenario": sc, "result": str(rr)[:400]}, True, "property=C07 the uninterrupted archive cannot be opened")
             continue
-        ref_hash[si] = rr[0]["snap_hashes"]; ref_index = rr[0]["index"]
+        ref_hash[si] = rr[0]["snap_hashes"]; ref_index = rr[0]["index"]; ref_relaxed[si] = rr[0]["snap_hashes_relaxed"]
+        first_files[si] = files[0]
         # ---- (a) strace tie
         if len(sessions) != len(files):
             trace_ok = False; trace_detail.append("scenario %d: %d write sessions for %d snapshots" % (si, len(sessions), len(files)))
@@ -208,9 +213,11 @@ def _run(ctx, libdir, rebound, ft, E, rng, tmpd):
                 p = os.path.join(tmpd, "img_%d_%d_%d.bin" % (si, a, k))
                 open(p, "wb").write(image(fa, fb, k))
                 open_jobs.append({"kind": "open", "file": p, "load": True}); open_meta.append((si, a, k, a if k < wlen else a + 1))
-            coq_jobs.append(("c07_cut_%d_%d" % (si, a), body + "Eval vm_compute in (crash_opens R f%d s%d [%s]).\n"
-                             % (a - 1, a, ";".join("%d%%nat" % k for k in cuts))))
-            coq_meta.append(("cut", si, a, cuts))
+            for ci in range(0, len(cuts), 600):
+                cc = cuts[ci:ci + 600]
+                coq_jobs.append(("c07_cut_%d_%d_%d" % (si, a, ci), body + "Eval vm_compute in (crash_opens R f%d s%d [%s]).\n"
+                                 % (a - 1, a, ";".join("%d%%nat" % k for k in cc))))
+                coq_meta.append(("cut", si, a, cc))
             # restart from the last intact snapshot for a few cuts, continue the history, compare with the uninterrupted run
             for k in sorted(set(([1, 9, 11, 12, 13, wlen // 2, wlen - 29, wlen - 13, wlen - 1] if (ctx.thorough or si == 0) else [10, wlen - 13]) + [rng.randrange(wlen)])):
                 if 0 <= k < wlen:
@@ -234,7 +241,7 @@ def _run(ctx, libdir, rebound, ft, E, rng, tmpd):
     # ---- run library side (children) and Coq side concurrently
     from concurrent.futures import ThreadPoolExecutor
     with ThreadPoolExecutor(max_workers=2) as ex:
-        fut_coq = ex.submit(vlib.coq_eval_many, coq_jobs, 600)
+        fut_coq = ex.submit(vlib.coq_eval_many, coq_jobs, ctx.scale(600, 2400))
         per = 40
         batches = [open_jobs[i:i + per] for i in range(0, len(open_jobs), per)]
         lib_res = []
@@ -255,6 +262,44 @@ def _run(ctx, libdir, rebound, ft, E, rng, tmpd):
                     r1 = c06.run_jobs(libdir, [[job]], timeout=60)[0]
                     res_res.append(r1[0] if isinstance(r1, list) else {"died": r1[0], "stderr": r1[1]})
         coq_out = fut_coq.result()
+
+    # ---- restart_spoof_refuted replayed on the real library (always run)
+    sp = c06.run_jobs(libdir, [[{"kind": "spoof", "cut_delta": 0}], [{"kind": "spoof", "cut_delta": -1}]], timeout=120)
+    spr = [x[0] if isinstance(x, list) else {"died": x} for x in sp]
+    ctx.extra["spoof_replay"] = spr
+    ctx.case(key=("spoof", 0), sample={"spoof": spr[0]} if len(ctx.samples) < 6 else None)
+    if "nblobs_after_two_appends" not in spr[1] or spr[1]["nblobs_after_two_appends"] != 4:
+        ctx.violation("restart-control", {"job": "spoof cut_delta=-1", "result": spr[1]}, True,
+                      "property=C07 restart after a crash one byte before the spoof position does not recover both appended snapshots: %s" % (spr[1],))
+    if "nblobs_after_two_appends" not in spr[0] or spr[0]["nblobs_after_two_appends"] != 4:
+        ctx.violation("restart-spoofed-tail", {"job": {"kind": "spoof", "cut_delta": 0}, "result": spr[0],
+                                               "how": "tools/c06_driver.py job_spoof: particle coordinates x=END-type bits, y=0, z=(128<<32|7) bits, vx=1.0, "
+                                                      "previous particle y=(128<<32|0x1234) bits; crash 28 bytes behind that x in the append"}, True,
+                      "property=C07 crafted particle coordinates defeat the corruption detection of reb_simulation_save_to_file: after the crash, restart + 2 appends "
+                      "leave %s snapshots readable instead of 4 (no warning; the appended snapshots are lost)" % spr[0].get("nblobs_after_two_appends"))
+
+    # ---- repeated crash / restart cycles (thorough tier)
+    if ctx.thorough:
+        cyc_jobs = []; cyc_meta = []
+        for si, sc in enumerate(scen):
+            if si not in ref_hash:
+                continue
+            for rep in range(6):
+                p = os.path.join(tmpd, "cyc_%d_%d.bin" % (si, rep))
+                open(p, "wb").write(first_files[si])
+                ncr = rng.randint(2, 5)
+                cyc_jobs.append({"kind": "cycle", "file": p, "segs": sc["segs"][1:], "cuts": [rng.random() for _ in range(ncr)]})
+                cyc_meta.append((si, rep))
+        cres = c06.run_jobs(libdir, [[j] for j in cyc_jobs], timeout=300)
+        for (si, rep), job, r in zip(cyc_meta, cyc_jobs, cres):
+            r0 = r[0] if isinstance(r, list) else {"died": r[0], "stderr": r[1]}
+            ctx.case(key=("cycle", si, rep))
+            if r0.get("snap_hashes") != ref_hash[si] and r0.get("snap_hashes_relaxed") == ref_relaxed[si]:
+                uninit.append({"scenario": scen[si], "what": "crash/restart cycles"})
+            elif r0.get("snap_hashes") != ref_hash[si]:
+                ctx.violation("restart-cycles", {"scenario": scen[si], "cuts_as_fractions_of_each_write": job["cuts"], "result": str(r0)[:300]}, True,
+                              "property=C07 after %d crash/restart cycles the archive differs from the uninterrupted run (%s)" % (len(job["cuts"]), str(r0)[:120]))
+        ctx.extra["crash_restart_cycles"] = len(cyc_jobs)
 
     # ---- library-only oracle
     lib_by = {}
@@ -287,11 +332,17 @@ def _run(ctx, libdir, rebound, ft, E, rng, tmpd):
             what = "restart/append on the crash image killed the process (status %s)" % r["died"]
         elif "exception" in r:
             what = "restart/append raised %s" % r["exception"]
+        elif r["index"][0] and r["snap_hashes"] != ref_hash[si] and r.get("snap_hashes_relaxed") == ref_relaxed[si]:
+            uninit.append({"scenario": scen[si], "append": a, "cut_offset": k})
         elif not r["index"][0] or r["snap_hashes"] != ref_hash[si]:
             what = "archive after restart+append has %d snapshots; they differ from the uninterrupted run (%d snapshots)" % (
                 len(r.get("snap_hashes", [])), len(ref_hash[si]))
         if what:
             viol.setdefault("restart: " + what[:40], []).append(({"scenario": scen[si], "append": a, "cut_offset": k, "then": "restart from last intact snapshot, continue, append"}, what))
+    if uninit:
+        ctx.violation("uninitialised-var-config-members", dict(uninit[0], n_cases=len(uninit)), True,
+                      "property=C07 restart + continue differs from the uninterrupted run ONLY in index_1st_order_a/b of first-order var_config records: "
+                      "reb_simulation_add_variation_1st_order never initialises them (heap garbage is persisted)")
     for key, lst in viol.items():
         rep, what = lst[0]
         ctx.violation(key.strip(), dict(rep, n_cases=len(lst), how="image = file before the append with the first cut_offset bytes of the write applied (tools/c07.py image())"), True,
@@ -309,7 +360,7 @@ def _run(ctx, libdir, rebound, ft, E, rng, tmpd):
         m = re.search(r"=\s*\[(.*)\]\s*:\s*list \(bool \* bool \* list \(N \* N\)\)", out, re.S) if ok else None
         if not m:
             nbad.append("scenario %d append %d: coq evaluation failed %s" % (si, a, out[-300:])); continue
-        items = re.findall(r"\((true|false),\s*(true|false),\s*\[([^\]]*)\]\)", m.group(1))
+        items = re.findall(r"\(\s*(true|false),\s*(true|false),\s*\[([^\]]*)\]\s*\)", m.group(1))
         if len(items) != len(cuts):
             nbad.append("scenario %d append %d: %d predictions for %d cuts" % (si, a, len(items), len(cuts))); continue
         for k, (o, cwm, lst) in zip(cuts, items):
@@ -332,7 +383,8 @@ def _run(ctx, libdir, rebound, ft, E, rng, tmpd):
                 "restart+continue+append for ~10 cuts per append")
     ctx.assumptions += [
         "writes reach the file in program order and a crash leaves a byte prefix of the write (the write order itself is observed with strace, not assumed)",
-        "theorems cover cuts inside the delta / END and the first write; cuts inside the 12-byte trailer patch and inside the new trailer, and restart_equiv, "
-        "are covered by the exhaustive model-vs-library sweep only (not proved)",
+        "crash_prefix_safe is proved for every cut offset over the chain layout / append_trace; restart_equiv only in its write part (restart_write); that the "
+        "repair walk selects that position and the no_spoof glue are covered by the sweep and the restart jobs, not proved",
+        "known open finding restart-spoofed-tail: crafted payload bytes defeat the corruption test (replayed on every run)",
         "torn writes below byte granularity, fsync / page-cache reordering, MPI file names: not covered",
     ]
